@@ -18,7 +18,7 @@ func init() {
 	register(&Property{
 		ID: "C18",
 		Meta: core.Meta{
-			Level: "other",
+			Level:       "other",
 			Explanation: "Four structural obligations of json.Equal, each a necessary condition of 'equality holds exactly for equal JSON values': (R18.1) compare.equal dispatches on every jx.Type constant and returns false when the two types differ; (R18.2) in equalNumber no result that can be true is computed from a float64 comparison (floats may only justify false) — exact byte/zero/big.Rat comparisons decide equality; (R18.3) the enum duplicate scan compares every pair of distinct members of the same list with json.Equal and rejects on true; (R18.4) every path that returns the constant true has consumed a value from both decoders (otherwise the surrounding array/object iteration derails and equal composites compare as an error). The equivalence-relation laws over all JSON texts (reflexivity/symmetry/transitivity, e.g. with duplicate object keys) are NOT decided.",
 			Assumptions: []string{"jx.Decoder methods consume exactly one value", "Num.Float64 is monotone (nearest-float rounding)"},
 		},
@@ -753,12 +753,12 @@ func sideOf(v ssa.Value, memo map[ssa.Value]int, depth int) int {
 }
 
 var reviewedNumberPredicates = map[string]string{
-	"(github.com/go-faster/jx.Num).Zero":    "exact: all digits zero",
-	"(github.com/go-faster/jx.Num).Equal":   "exact: byte equality",
-	"(github.com/go-faster/jx.Num).IsInt":   "exact: no fraction/exponent",
-	"(github.com/go-faster/jx.Num).Float64": "monotone rounding: may only decide inequality (R18.2)",
-	"(*math/big.Rat).UnmarshalText":         "exact",
-	"(*math/big.Rat).Cmp":                   "exact",
+	"(github.com/go-faster/jx.Num).Zero":     "exact: all digits zero",
+	"(github.com/go-faster/jx.Num).Equal":    "exact: byte equality",
+	"(github.com/go-faster/jx.Num).IsInt":    "exact: no fraction/exponent",
+	"(github.com/go-faster/jx.Num).Float64":  "monotone rounding: may only decide inequality (R18.2)",
+	"(*math/big.Rat).UnmarshalText":          "exact",
+	"(*math/big.Rat).Cmp":                    "exact",
 	"(*github.com/go-faster/jx.Decoder).Num": "reads the number",
 	"github.com/go-faster/errors.Wrap":       "error path",
 }
